@@ -258,6 +258,12 @@ ProfIter ==
     quants |-> Quants4, looks |-> TRUE, lookbs |-> TRUE, atomics |-> TRUE, groups |-> TRUE,
     brefs |-> TRUE, bexs |-> FALSE, conds |-> FALSE, unrestricted |-> FALSE]
 
-Prof(name) == CASE name = "core" -> ProfCore [] name = "iter" -> ProfIter [] name = "cond" -> ProfCond
+\* C14 space: mixed-case alphabet, (?i:..) and (?-i:..) nodes
+ProfCase ==
+   [atoms |-> {Lit("a"), Lit("B"), LitI("b"), LitCS("a"), Class(<<"a", "B">>), NClass(<<"a">>), AnyC, Asrt("wb")},
+    quants |-> Quants4, looks |-> TRUE, lookbs |-> FALSE, atomics |-> TRUE, groups |-> TRUE,
+    brefs |-> TRUE, bexs |-> FALSE, conds |-> FALSE, unrestricted |-> FALSE]
+
+Prof(name) == CASE name = "core" -> ProfCore [] name = "case" -> ProfCase [] name = "iter" -> ProfIter [] name = "cond" -> ProfCond
                 [] name = "wild" -> ProfWild [] name = "plain" -> ProfPlain
 =============================================================================
